@@ -176,7 +176,8 @@ fn main() {
     let replay: Option<J> = args.map.get("replay").map(|p| serde_json::from_str(&std::fs::read_to_string(p).unwrap()).unwrap());
     let runs = if replay.is_some() { 1 } else { runs };
 
-    for run in 0..runs {
+    let first_run = args.u64("first-run", 0);
+    for run in first_run..runs {
         let rseed = seed.wrapping_mul(7_919).wrapping_add(run);
         let cfg = match &replay {
             Some(r) => Config::from_json(&r["cfg"]),
@@ -258,6 +259,22 @@ fn main() {
             let _ = last_end;
         }
 
+        // commits of transactions that created a persistent savepoint: every image inside them gets the full probe
+        // (the savepoint is restored on a copy of the image)
+        let mut sp_commits: std::collections::HashSet<usize> = std::collections::HashSet::new();
+        {
+            let mut made = false;
+            for (idx, ev) in events.iter().enumerate() {
+                match ev["e"].as_str() {
+                    Some("bw") => made = false,
+                    Some("spp") if ev["r"].get("ok").is_some() => made = true,
+                    Some("cend") if made => {
+                        sp_commits.insert(idx);
+                    }
+                    _ => {}
+                }
+            }
+        }
         // collect the work: (crash point, durable image index, pending ops, cases)
         struct Point {
             c: usize,
@@ -308,7 +325,8 @@ fn main() {
                         let p = &points[pi];
                         let pend: Vec<&Op> = p.pending.iter().collect();
                         let image = build_image(&p.durable, &pend, &p.cases[ci]);
-                        let do_second = replay.as_ref().map_or((w as u64) % second_every == 0, |r| r["depth"].as_u64() == Some(2));
+                        // (a replay always runs the full probe: accounting, a write transaction after the recovery, savepoint restores)
+                        let do_second = replay.as_ref().map_or((w as u64) % second_every == 0 || sp_commits.contains(&owner[p.c].0), |_| true);
                         let (outcome, rec) = if reader3 || writer3 {
                             // C19: the image is opened by the release that did not write it; what it shows must also be
                             // what the writing release itself shows for the same image ("identical contents")
